@@ -8,7 +8,7 @@ from spec import step_model as M
 PROPERTY = "C06"
 BOUNDS = {
     "quick": "one step from every built pre-state: 0..1 registry node (id sym [10,99]; reboot, sleeping flags symbolic) with 0..1 child and 0..1 stored value (type sym [0,9]); metric symbolic; event node sym [10,99], child sym [10,99] or 255, all 5 commands (plus 'boundary' partitions with node ids from {0,255} and child ids from {0,254,255} for set/req/stream), internal types from {0,1,2,3,5,6,9,11,13,14,18,21,22,32}, stream sym [0,5]; version known (1.4, 2.0, 2.2; thorough: all 5) and unknown (version reply / gateway presentation payload from a 7-text class list); time reply: day/hour/minute/second symbolic over (year,month) in {1970-01, 2000-02, 2024-02, 2038-01}",
-    "thorough": "quick on all 5 versions, plus A: ids sym [0,255] (every digit class), plus B: ids sym [10,99] with 0..2 nodes, 0..2 children, types sym [0,40]",
+    "thorough": "quick on all 5 versions, plus A: ids sym [0,255] (every digit class), plus B: 0..2 registry nodes, plus C: 0..2 children and types sym [0,40]",
 }
 REALISED = ["(year, month) of the clock stub are a grid (datetime.date realises them)", "version texts, battery/heartbeat texts are class lists"]
 STUBS = ["RecTransport", "protocol_14.time -> fake clock: localtime() returns symbolic fields; gmtime()/time() return different values so that a swap is visible", "symbolic maps", "__repr__ -> constant"]
@@ -27,12 +27,13 @@ def partitions(tier):
     q = tier == "quick"
     ids = {"idlo": 10, "idhi": 99, "tvhi": 9, "maxnodes": 1, "maxch": 1}
     idsA = {"idlo": 0, "idhi": 255, "tvhi": 9, "maxnodes": 1, "maxch": 1}   # thorough A: every digit class
-    idsB = {"idlo": 10, "idhi": 99, "tvhi": 40, "maxnodes": 2, "maxch": 2}  # thorough B: larger shapes / type window
+    idsB = {"idlo": 10, "idhi": 99, "tvhi": 9, "maxnodes": 2, "maxch": 1}   # thorough B: two registry nodes
+    idsC = {"idlo": 10, "idhi": 99, "tvhi": 40, "maxnodes": 1, "maxch": 2}  # thorough C: two children, wide type window
     parts = []
 
     def add(prefix, v, known):
         for cmd, sub in ((0, ""), (1, ""), (2, ""), (3, "a"), (3, "b"), (3, "c"), (3, "d"), (4, "")):
-            for tag, dims in ((("", ids),) if q else (("", ids), ("A", idsA), ("B", idsB))):
+            for tag, dims in ((("", ids),) if q else (("", ids), ("A", idsA), ("B", idsB), ("C", idsC))):
                 parts.append(dict(dims, name="%s%s-cmd%d%s" % (prefix, tag, cmd, sub), fn="sym_step", version=v, known=known, cmd=cmd, sub=sub,
                                   sym_reboot=(cmd == 1), sym_sleep=(cmd in (2, 3) and sub in ("", "b")),
                                   budget=500 if q else 3000, cost=4 if not tag else 9))
@@ -92,6 +93,8 @@ def _event(inp, part, known):
             raise Reject
         if cmd == 0 and c == 255 and n == 0:
             p = VERSION_TEXTS[inp.pick("vt", len(VERSION_TEXTS))]
+        elif cmd == 1 and inp.bool("same_as_stored"):
+            p = "v0"  # the payload the registry builder stores: a set that repeats the stored value
         else:
             p = inp.str("p", 1, exclude=LINE_TERMINATORS, no_trailing_ws=True)
     return n, c, cmd, 0, t, p, conv
